@@ -531,6 +531,15 @@ JLS_API int32_t jls_rd_fsr_statistics(struct jls_rd_s * self, uint16_t signal_id
     return jls_core_fsr_statistics(&self->core, signal_id, start_sample_id, increment, data, data_length);
 }
 
+static inline int64_t i64_add_saturate(int64_t a, int64_t b) {
+    if ((b > 0) && (a > (INT64_MAX - b))) {
+        return INT64_MAX;
+    } else if ((b < 0) && (a < (INT64_MIN - b))) {
+        return INT64_MIN;
+    }
+    return a + b;
+}
+
 int32_t jls_core_annotations(struct jls_core_s * self, uint16_t signal_id, int64_t timestamp,
                              jls_rd_annotation_cbk_fn cbk_fn, void * cbk_user_data) {
     struct jls_annotation_s * annotation;
@@ -540,7 +549,7 @@ int32_t jls_core_annotations(struct jls_core_s * self, uint16_t signal_id, int64
     ROE(jls_core_signal_validate(self, signal_id));
     struct jls_signal_def_s * signal_def = &self->signal_info[signal_id].signal_def;
     const int64_t sample_id_offset = signal_def->sample_id_offset;
-    timestamp += sample_id_offset;
+    timestamp = i64_add_saturate(timestamp, sample_id_offset);
 
     int32_t rv = jls_core_ts_seek(self, signal_id, 0, JLS_TRACK_TYPE_ANNOTATION, timestamp);
     if (rv == JLS_ERROR_NOT_FOUND) {
@@ -622,7 +631,7 @@ int32_t jls_core_utc(struct jls_core_s * self, uint16_t signal_id, int64_t sampl
     ROE(jls_core_signal_validate(self, signal_id));
     struct jls_signal_def_s * signal_def = &self->signal_info[signal_id].signal_def;
     const int64_t sample_id_offset = signal_def->sample_id_offset;
-    sample_id += sample_id_offset;
+    sample_id = i64_add_saturate(sample_id, sample_id_offset);
     int32_t rv = jls_core_ts_seek(self, signal_id, 1, JLS_TRACK_TYPE_UTC, sample_id);
     if (rv == JLS_ERROR_NOT_FOUND) {
         return 0;  // no utc entries, and that's just fine
